@@ -1,0 +1,35 @@
+//go:build verif
+
+package lintutil
+
+// Contracts for the verification machinery under /verif (comment-only file;
+// compiled only with -tags verif, contains no executable code).
+
+// ---- AstSet against its abstract view: the sequence of inserted nodes since the last Clear (C03, C13)
+
+//@ func (*AstSet).Contains
+//@   prop C03 C13
+//@   requires s != nil
+//@   pure
+//@   ensures @member-iff-some-item-is-equal result <==> (exists k int :: 0 <= k && k < len(s.items) && astEq(s.items[k], x))
+//@   loop 1 invariant @none-so-far forall k int :: (0 <= k && k < $i) ==> !astEq(s.items[k], x)
+
+//@ func (*AstSet).Insert
+//@   prop C03 C13
+//@   requires s != nil
+//@   assigns s.items, elems(s.items)
+//@   ensures @inserted-iff-absent result <==> !(exists k int :: 0 <= k && k < old(len(s.items)) && astEq(old(s.items[k]), x))
+//@   ensures @appended-at-the-end result ==> (len(s.items) == old(len(s.items)) + 1 && s.items[len(s.items) - 1] == x)
+//@   ensures @unchanged-when-present !result ==> s.items == old(s.items)
+
+//@ func (*AstSet).Clear
+//@   prop C03 C13
+//@   requires s != nil
+//@   assigns s.items
+//@   ensures @empty-after-clear len(s.items) == 0
+
+//@ func (*AstSet).Len
+//@   prop C03 C13
+//@   requires s != nil
+//@   pure
+//@   ensures @len-of-view result == len(s.items)
